@@ -228,7 +228,7 @@ EXTRA4 = {
  "C05": ("; RSA.construct from (n, e, d) on moduli that are not products of two primes; ElGamal.generate intervals", ""),
  "C06": ("; ec_ws_cmp pair rows; Edwards negation/compare on special points; ECDH with x = 0 of a finite point", ""),
  "C07": ("; label retention rule", ""),
- "C08": ("; PBES2 encrypt/decrypt and PKCS#8 wrap/unwrap round trips for every protection string over tagged KDFs and keyed stand-in ciphers; ec_ws_cmp pair rows on the C evaluator",
+ "C08": ("; ECC export/import round trips on P-256 and P-521 (real EccKey, writers, readers, decompression over a stand-in point class); PBES2 encrypt/decrypt and PKCS#8 wrap/unwrap round trips for every protection string over tagged KDFs and keyed stand-in ciphers; ec_ws_cmp pair rows on the C evaluator",
          " Also decided: every protection string the PBES2 writer offers is read back by the reader with the same derived key, and another passphrase never returns the data."),
  "C09": ("; retention rule treats memoryview slices as views", ""),
  "C10": ("; AEAD compositions as permitted-sequence rows (pieces, in place, declared zero lengths)", ""),
